@@ -1,28 +1,66 @@
-(* C17 -- schema text is parsed as RFC 4512 defines it: the totality clause (partial; the grammar
-   clause is decided by the reference-parser check only). *)
+(* C17 -- schema text is parsed as RFC 4512 defines it.
+   Grammar clause: the sentences of the three description grammars are given as concrete syntax trees - the
+   fields together with every choice the grammar leaves open (length of every WSP / SP run, bare or
+   parenthesised lists of any length incl. empty ones, \5c or \5C, optional kind / usage, quoted SYNTAX) - with
+   a function writing the sentence and a function giving the denoted description.  For every well-formed
+   tree the parser returns exactly the denotation.  Totality clause: for ANY string the parsers return a
+   definition or raise ValueError. *)
 From Coq Require Import ZArith NArith List Bool.
-From SV Require Import Base.Py Rx.Syntax Rx.Lemmas Gen.Generated Schema.Model Schema.Total.
+From SV Require Import Base.Py Rx.Syntax Rx.Lemmas Gen.Generated Schema.Model Schema.Total
+  Schema.GMatch Schema.GChain Schema.GObjectClass Schema.GAttributeType Schema.GDitContentRule Schema.GWfDec.
 Import ListNotations.
 
-(* For ANY string each of the three parsers returns a definition or raises ValueError, nothing else:
-   the matcher never exhausts its steps on any pattern and input (general theorem), re.sub always
-   answers, the extension loops make progress, the groups the code indexes are always captured. *)
-Theorem C17_partial_object_class_total : forall s, benign (oc_from_string s).
+Theorem C17_object_class_sentences :
+  forall c, oc_cst_wf c -> oc_from_string (oc_sentence c) = Ok (oc_denote c).
+Proof. exact oc_grammar. Qed.
+
+Theorem C17_attribute_type_sentences :
+  forall c, at_cst_wf c -> at_from_string (at_sentence c) = Ok (at_denote c).
+Proof. exact at_grammar. Qed.
+
+Theorem C17_dit_content_rule_sentences :
+  forall c, dcr_cst_wf c -> dcr_from_string (dcr_sentence c) = Ok (dcr_denote c).
+Proof. exact dcr_grammar. Qed.
+
+(* the same from the executable conditions the check evaluates on generated trees *)
+Theorem C17_sentences_executable_conditions :
+  (forall c, oc_cst_b c = true -> oc_from_string (oc_sentence c) = Ok (oc_denote c)) /\
+  (forall c, at_cst_b c = true -> at_from_string (at_sentence c) = Ok (at_denote c)) /\
+  (forall c, dcr_cst_b c = true -> dcr_from_string (dcr_sentence c) = Ok (dcr_denote c)).
+Proof. exact (conj oc_grammar_b (conj at_grammar_b dcr_grammar_b)). Qed.
+
+(* totality: for input outside the grammar - for any input at all - a definition or ValueError, nothing else *)
+Theorem C17_object_class_total : forall s, benign (oc_from_string s).
 Proof. exact oc_from_string_total. Qed.
-Theorem C17_partial_attribute_type_total : forall s, benign (at_from_string s).
+Theorem C17_attribute_type_total : forall s, benign (at_from_string s).
 Proof. exact at_from_string_total. Qed.
-Theorem C17_partial_dit_content_rule_total : forall s, benign (dcr_from_string s).
+Theorem C17_dit_content_rule_total : forall s, benign (dcr_from_string s).
 Proof. exact dcr_from_string_total. Qed.
 
-(* the general facts about the regular-expression engine of the model *)
-Theorem C17_matcher_never_exhausts_its_steps : forall r e s, re_match r e s <> BFuel.
+(* the matcher never runs out of steps, whatever the pattern and the input *)
+Theorem C17_matcher_never_exhausts_fuel :
+  forall r e s, re_match r e s <> BFuel.
 Proof. exact re_match_total. Qed.
+
 Theorem C17_mandatory_groups_are_captured :
   forall r e s p cs i, re_match r e s = BYes p cs -> must_capture i r = true -> exists se, cap_lookup i cs = Some se.
 Proof. exact re_match_captures. Qed.
 
-Print Assumptions C17_partial_object_class_total.
-Print Assumptions C17_partial_attribute_type_total.
-Print Assumptions C17_partial_dit_content_rule_total.
-Print Assumptions C17_matcher_never_exhausts_its_steps.
+(* non-vacuity: a sentence with unusual spacing, an upper-case escape and the kind left out *)
+Example C17_example :
+  oc_cst_wf (mkOCc (mkHead 2%nat [50; 46; 53]%N (Some (0%nat, 2%nat, QParen 1%nat [99; 110]%N [(1%nat, [111]%N)] 0%nat))
+                           (Some (1%nat, 0%nat, [DPlain 97%N; DBslUpper; DQuote])) None)
+                   (Some (0%nat, 0%nat, OParen 0%nat [116; 111; 112]%N [(2%nat, 0%nat, [49; 46; 50]%N)] 1%nat)) None None
+                   (Some (0%nat, 1%nat, OBare [99; 110]%N))
+                   [mkExt 0%nat [102; 111; 111]%N 2%nat (SParen 0%nat [DPlain 98%N] [(1%nat, [DBslLower])] 2%nat); mkExt 1%nat [98]%N 0%nat (SEmpty 3%nat)] 0%nat).
+Proof. exact oc_cst_example_wf. Qed.
+
+Print Assumptions C17_object_class_sentences.
+Print Assumptions C17_attribute_type_sentences.
+Print Assumptions C17_dit_content_rule_sentences.
+Print Assumptions C17_sentences_executable_conditions.
+Print Assumptions C17_object_class_total.
+Print Assumptions C17_attribute_type_total.
+Print Assumptions C17_dit_content_rule_total.
+Print Assumptions C17_matcher_never_exhausts_fuel.
 Print Assumptions C17_mandatory_groups_are_captured.
